@@ -150,10 +150,10 @@ def handle : Handler := fun op a => do
     let path ← asBytes (← field a "path")
     return jbytes (prepareUrlPath bpath path)
   | "serialize3" =>
-    let vt ← decVariant (← field a "vt"); let vs ← decVariant (← field a "vs")
+    let vt ← decVariant (← field a "vt"); let vm ← decVariant (← field a "vm"); let vs ← decVariant (← field a "vs")
     let defs ← asList decPDef (← field a "defs")
     let c ← decContainer (← field a "container")
-    return jopt encContainer (serializeOpenapi3 vt vs defs c)
+    return jopt encContainer (serializeOpenapi3 vt vm vs defs c)
   | "serialize2" =>
     let vs ← decVariant (← field a "vs")
     let defs ← asList decSDef (← field a "defs")
@@ -164,22 +164,26 @@ def handle : Handler := fun op a => do
   | "stringify" =>
     return encContainer (stringify (← asBool (← field a "isQuery")) (← decContainer (← field a "container")))
   | "cell" =>
-    let vt ← decVariant (← field a "vt"); let vs ← decVariant (← field a "vs")
+    let vt ← decVariant (← field a "vt"); let vm ← decVariant (← field a "vm"); let vs ← decVariant (← field a "vs")
     let c ← decCell (← field a "cell")
     let name ← asText (← field a "name")
     let x ← decVal (← field a "val")
-    let w := cellWire vt vs c name x
+    let w := cellWire vt vm vs c name x
     return jobj [("wire", jopt jtext w), ("decoded", jopt encDVal (w.bind (decodeCell c name))),
                  ("coerce", encDVal (coerce x)), ("single", .bool (singleStringCell c)),
-                 ("shape_ok", .bool (shapeOk c.ty x)), ("known_bad", .bool (knownBadCell c)),
+                 ("shape_ok", .bool (shapeOk c.ty x)), ("known_bad", .bool (!goodCell vt vm c)),
+                 ("bad_defaults", .bool (badDefaultsCell c)), ("bad_matrix", .bool (badMatrixCell c)),
                  ("all_plain", .bool (allPlain x)),
                  ("shape", jopt (fun sh => .str (shapeName sh)) (cellShape c)),
                  ("eff_style", .str (reprStr (effStyle c))), ("eff_explode", .bool (effExplode c)),
-                 ("wire_repaired", jopt jtext (cellWire .repaired .repaired c name x))]
+                 ("wire_repaired", jopt jtext (cellWire .repaired .repaired .repaired c name x))]
   | "decode_cell" =>
     let c ← decCell (← field a "cell")
     return jobj [("decoded", jopt encDVal (decodeCell c (← asText (← field a "name")) (← asText (← field a "w")))),
                  ("single", .bool (singleStringCell c))]
+  | "decode_list" =>
+    let d ← asNat (← field a "d")
+    return encDVal (decList d (← asText (← field a "w")))
   | "decode_spread" =>
     let name ← asText (← field a "name")
     let entries ← asPairs asText asText (← field a "entries")
@@ -198,10 +202,11 @@ def handle : Handler := fun op a => do
     return encHeaders (finalHeaders lowerAscii t caseH cfg ua tcid (toStr "Content-Type") mt
       (← asBool (← field a "multipart")) (← asBool (← field a "bodySet")) extra)
   | "template" =>
-    let vq ← decVariant (← field a "vq"); let vt ← decVariant (← field a "vt"); let vs ← decVariant (← field a "vs")
+    let vq ← decVariant (← field a "vq"); let vt ← decVariant (← field a "vt"); let vm ← decVariant (← field a "vm")
+    let vs ← decVariant (← field a "vs")
     let loc ← decLoc (← field a "loc")
     let defs ← asList decPDef (← field a "defs")
-    return jopt encContainer (templateSerialize vq vt vs loc defs (← decContainer (← field a "container")))
+    return jopt encContainer (templateSerialize vq vt vm vs loc defs (← decContainer (← field a "container")))
   | "utf8" => return jbytes (utf8 (← asText (← field a "s")))
   | "empty_dicts" =>
     return encContainer (emptyDictsToStrings (← decContainer (← field a "container")))
